@@ -2,12 +2,13 @@
  *
  *   schema <dsl> <yang-hex>                       register the schema named by the DSL token    -> ok <n> <node-summary>*
  *   build <dsl> <desc>                            build explicit nodes, validate (adds defaults)  -> ok <dump> | err Invalid   [impl only]
- *   diff <dsl> <A> <B> <opts>                     lyd_diff_siblings, all siblings                 -> ok <dump>
- *   reverse <dsl> <A> <B> <opts>                  r = lyd_diff_reverse_all(diff(A,B)); apply r to B; compare with A
+ *   diff <dsl> <A> <B> <opts> <fx>                lyd_diff_siblings, all siblings                 -> ok <dump>
+ *   reverse <dsl> <A> <B> <opts> <fx>             r = lyd_diff_reverse_all(diff(A,B)); apply r to B; compare with A
  *                                                 -> ok <dump r> <dump apply | DupInstances | E:<err>> <same|differs|-> [P:<n>] | err Reverse:<E>
  *                                                 (P:<n>, implementation only: lyd_diff_apply_all left `data` n siblings behind the first one)
- *   merge3 <dsl> <A> <B> <C> <opts> <mopts>       m = lyd_diff_merge_all(diff(A,B), diff(B,C)); apply m to A; compare with C
+ *   merge3 <dsl> <A> <B> <C> <opts> <mopts> <fx>  m = lyd_diff_merge_all(diff(A,B), diff(B,C)); apply m to A; compare with C
  *                                                 -> ok <dump m> <dump apply | DupInstances | E:<err>> <same|differs|->  | err Merge:<E>
+ *        (<fx> = "fx=<ids>": repaired findings of component diff the MODEL of apply has to follow; ignored here)
  *   lawr <dsl> <A> <B> <opts>                     more laws of reverse on the implementation      -> ok <name>=<verdict>*        [impl only]
  *   lawm <dsl> <A> <B> <C> <opts> <mopts>         more laws of merge on the implementation        -> ok <name>=<verdict>*        [impl only]
  *   leakcheck                                                                                     -> ok <n>
@@ -15,7 +16,7 @@
  * Trees travel as hex(canonical dump) (treeproto.h).  <opts>: 1 = LYD_DIFF_DEFAULTS, <mopts>: 1 = LYD_DIFF_MERGE_DEFAULTS.
  * "compare": lyd_compare_siblings(FULL_RECURSION | DEFAULTS) when the diffs were made with LYD_DIFF_DEFAULTS; otherwise the
  * result is re-validated (lyd_validate_module) first and compared without the DEFAULTS flag.
- * Diffs are always taken from their first sibling (lyd_diff_siblings may return another node: finding F58 of C06).
+ * Diffs are always taken from their first sibling (lyd_diff_siblings may return another node: finding F128 of C06).
  * In the dumps of diffs and of apply results the default flag of non-presence containers is printed as 0: neither apply nor
  * lyd_compare_siblings looks at it, and the model does not track it (Diff/Reverse.lean, Diff/MergeDiff.lean).                */
 #define _GNU_SOURCE
@@ -128,7 +129,7 @@ arg_tree(const char *id, const struct tp_schema *s, const char *tok, struct lyd_
     return 0;
 }
 
-/* an independently built copy of a tree argument (lyd_dup_siblings leaves incomplete sorting trees behind: finding F55) */
+/* an independently built copy of a tree argument (lyd_dup_siblings leaves incomplete sorting trees behind: finding F125 of C06) */
 static struct lyd_node *
 fresh(const struct tp_schema *s, const char *tok)
 {
@@ -172,7 +173,7 @@ apply_fields(const struct tp_schema *s, struct lyd_node **data, const struct lyd
         return;
     }
     /* lyd_diff_apply_all(&data, …) must leave `data` at the first sibling; the comparison below starts from the real first
-     * sibling, the distance is reported in the implementation-only field P:<n> (finding F134) */
+     * sibling, the distance is reported in the implementation-only field P:<n> (finding F164) */
     stale = nprev(*data);
     *data = lyd_first_sibling(*data);
     if (has_dup_inst(*data)) {
@@ -379,7 +380,7 @@ main(void)
             }
             lyd_free_all(t);
             free(text);
-        } else if (!strcmp(op, "diff") && r.ntok == 7) {
+        } else if (!strcmp(op, "diff") && r.ntok == 8) {
             struct lyd_node *A, *B, *d = NULL;
             LY_ERR rc;
 
@@ -392,9 +393,9 @@ main(void)
                 vp_begin(id, "ok"); field_dump13(s, d); vp_end();
             }
             lyd_free_all(d ? lyd_first_sibling(d) : NULL); lyd_free_all(A); lyd_free_all(B);
-        } else if (!strcmp(op, "reverse") && r.ntok == 7) {
+        } else if (!strcmp(op, "reverse") && r.ntok == 8) {
             op_reverse(id, s, r.tok);
-        } else if (!strcmp(op, "merge3") && r.ntok == 9) {
+        } else if (!strcmp(op, "merge3") && r.ntok == 10) {
             op_merge3(id, s, r.tok);
         } else if (!strcmp(op, "lawr") && r.ntok == 7) {
             op_lawr(id, s, r.tok);
